@@ -7,8 +7,12 @@
 //     state.fx / state.gx bitwise equal to f / grad f evaluated at state.x;
 //   * backtrack => Armijo; lemarechal => Armijo + Wolfe; fletcher => Armijo + strong Wolfe (up to rounding);
 //   * non-descent direction (g.d >= 0 with certainty) => failure and bitwise untouched state (x, fx, gx);
-//   * convex quadratics: all five succeed (premise: default iteration budget, see `must_succeed`) and satisfy what they
-//     advertise (morethuente: Armijo + strong Wolfe, cgdescent: Armijo + Wolfe or approximate Wolfe with eps_k).
+//   * convex quadratics: all five succeed and satisfy what they advertise (morethuente: Armijo + strong Wolfe,
+//     cgdescent: Armijo + Wolfe or approximate Wolfe with eps_k = cgdescent::epsilon * |f0|), judged under the premise
+//     spelled out at `premise` below (default budget and method parameters, c1 <= 0.4, c2 >= 1e-3, t0 in [1e-3,1e3] or
+//     non-finite, a decrease along the ray that double precision can resolve).
+// Not judged (the statement is silent): the state after a failed search; morethuente / cgdescent conditions elsewhere
+// (counted as info|... so that the evidence shows how often they do not hold).
 //
 // Modes: `registered` (the library's smooth benchmark functions, 1..16 dims), `quadratic` (random convex quadratics).
 #include "common/vf.h"
